@@ -246,11 +246,22 @@ pub fn run_batch(scn: &dyn Scenario, tier: Tier, seed: u64, total: u64, workers:
     }
     let watchdog = Duration::from_secs(scn.watchdog_s());
     let max_violations: usize = std::env::var("VERIF_MAX_VIOLATIONS").ok().and_then(|s| s.parse().ok()).unwrap_or(48);
+    // listed known findings do not count towards the early stop: they are expected in many runs
+    let known = load_known();
+    let mut counted = 0usize;
+    let mut unknown = 0usize;
     loop {
         if ws.iter().all(|w| w.done) {
             break;
         }
-        if agg.violations.len() >= max_violations {
+        while counted < agg.violations.len() {
+            let v = &agg.violations[counted].1;
+            if known.lookup(&v.property, &v.signature).is_none() {
+                unknown += 1;
+            }
+            counted += 1;
+        }
+        if unknown >= max_violations {
             // enough evidence that the property is violated: stop the batch early (the verdict is
             // already exit 1; exploring the rest of a broken tree only costs time)
             for w in ws.iter_mut() {
@@ -750,7 +761,7 @@ pub fn check_main(scn: &dyn Scenario, tier: Tier, seed: u64) -> i32 {
             continue;
         }
         own_new += 1;
-        if own_new > 4 {
+        if own_new > std::env::var("VERIF_MAX_MINIMISE").ok().and_then(|s| s.parse::<u64>().ok()).unwrap_or(4) {
             println!("VIOLATION property={} replay=- (further signature {} not minimised)", id, sig);
             continue;
         }
